@@ -225,7 +225,10 @@ def wrapping(text, tns, tlocal, deep=False):
     def new_id(idmode):
         # identifiers an imprecise comparison (prefix, regular expression, case folding) would take for the genuine one
         return {"sameid": None, "newid": tid + "e", "dotid": tid.replace("-", ".", 1) if "-" in tid else tid[:1] + "." + tid[2:],
-                "lastdot": tid[:-1] + ".", "caseid": tid.swapcase(), "prefixid": tid[:-1]}[idmode]
+                "lastdot": tid[:-1] + ".", "caseid": tid.swapcase(), "prefixid": tid[:-1],
+                # ... or that a normalising layer (strip, whitespace collapse, Unicode folding) would map onto the genuine one
+                "trailblank": tid + " ", "leadblank": " " + tid, "trailtab": tid + "\t", "trailnl": tid + "\n", "trailnbsp": tid + "\u00a0",
+                "zerowidth": tid[:3] + "\u200b" + tid[3:]}[idmode]
 
     def evil(idmode, sigmode, hide=b"", slot=None):
         """evil element bytes; hide = bytes to hide inside it at slot"""
@@ -243,6 +246,11 @@ def wrapping(text, tns, tlocal, deep=False):
         if slot in ("Advice", "Extensions", "Object"):
             for idmode in ("dotid", "lastdot", "caseid", "prefixid"):
                 combos.append((slot, idmode, "movesig"))
+        if slot in ("Advice", "Extensions", "StatusDetail"):
+            for idmode in ("trailblank", "leadblank", "trailtab", "trailnl", "trailnbsp", "zerowidth"):
+                combos.append((slot, idmode, "copysig"))
+                if deep:
+                    combos.append((slot, idmode, "movesig"))
     for slot, idmode, sigmode in combos:
         is_assertion_slot = slot in ("Advice", "SubjectConfirmationData", "AttributeValue")
         if root_is_target and is_assertion_slot:
